@@ -373,6 +373,65 @@ func (c19) Exec(sc *sim.Scenario, env *sim.Env) *sim.Violation {
 			return &sim.Violation{Oracle: "twin_nil_len", Step: i, Msg: fmt.Sprintf("after %s: nil-target emitter reports Len=%d", op, a.Len)}
 		}
 	}
+	// measuring with Clone(nil) of a *buffered* parent: the first half of the history goes into
+	// a parent with a buffer, the rest into parent.Clone(nil), which has no target: it must
+	// accept everything, track pc/labels/flags like a real emitter, and leave the parent alone
+	{
+		half := len(ops) / 2
+		pt, pguard := mkTarget(total+16, true)
+		parent := asm.NewEmitter(pt, gentext)
+		ref := asm.NewEmitter(make([]byte, total+16), gentext)
+		ok := true
+		for _, op := range ops[:half] {
+			if op.K == "clone" || op.K == "append" {
+				continue
+			}
+			p1, _ := asmApply(parent, op)
+			p2, _ := asmApply(ref, op)
+			if p1 != p2 {
+				ok = false
+				break
+			}
+		}
+		if ok {
+			var c *asm.Emitter
+			if p, pv := sim.RecoverLib(func() { c = parent.Clone(nil) }); p || c == nil {
+				return &sim.Violation{Oracle: "clone_panic", Step: half, Msg: "Clone(nil) of a buffered emitter: " + sim.PanicString(pv)}
+			}
+			before := snapEmitter(parent)
+			ptCopy := append([]byte{}, pt[:cap(pt)]...)
+			for i, op := range ops[half:] {
+				if op.K == "clone" || op.K == "append" {
+					continue
+				}
+				p1, m1 := asmApply(c, op)
+				p2, m2 := asmApply(ref, op)
+				st.SimOps += 2
+				if p1 != p2 {
+					return &sim.Violation{Oracle: "twin_refusal", Step: half + i, Msg: fmt.Sprintf("op %s: Clone(nil) measuring emitter panicked=%v (%s), real emitter panicked=%v (%s)", op, p1, m1, p2, m2)}
+				}
+				a, b := snapEmitter(c), snapEmitter(ref)
+				if v := accessorViolation(a, half+i, op); v != nil {
+					return v
+				}
+				if a.PC != b.PC || a.Flags != b.Flags {
+					return &sim.Violation{Oracle: "twin_pc_flags", Step: half + i, Msg: fmt.Sprintf("after %s: Clone(nil) measuring emitter PC=%#x flags=%#x, real PC=%#x flags=%#x", op, a.PC, a.Flags, b.PC, b.Flags)}
+				}
+				for n, v := range a.Labels {
+					if b.Labels[n] != v {
+						return &sim.Violation{Oracle: "twin_label", Step: half + i, Msg: fmt.Sprintf("after %s: label %s measuring=%#x real=%#x", op, n, v, b.Labels[n])}
+					}
+				}
+			}
+			if d := before.diff(snapEmitter(parent), true); d != "" {
+				return &sim.Violation{Oracle: "clone_not_isolated", Step: len(ops), Msg: "emitting into Clone(nil) changed the buffered parent: " + d}
+			}
+			if string(ptCopy) != string(pt[:cap(pt)]) || !guardIntact(pguard) {
+				return &sim.Violation{Oracle: "clone_not_isolated", Step: len(ops), Msg: "emitting into Clone(nil) wrote into the parent's target buffer"}
+			}
+			st.Probe("measuring_clone_of_buffered_parent")
+		}
+	}
 	st.Probe("twin_checked")
 	return nil
 }
